@@ -1194,6 +1194,25 @@ func ruleWR6(c *Ctx) {
 			tolerant = r
 		}
 	}
+	if tolerant == nil {
+		// the tolerant return may be shared with the ordinary end of the function
+		// (`if err := processLine(...); err != nil && endsWithNewline { return nil, err }` falling through to the one
+		// `return events, nil`): it is then reached from the parse-error edge across the false edge of a bool test,
+		// which clause (iii) judges
+		for _, r := range returnsOf(rd) {
+			if len(r.Results) < 2 || !isErrorType(r.Results[len(r.Results)-1]) || inCycle(r.Block()) || !isNilConst(returnedValue(r, len(r.Results)-1)) {
+				continue
+			}
+			for e := range procErrEdges {
+				for _, bf := range branchFacts(rd) {
+					if bf.A.Kind == "bool" && len(bf.A.Env) == 0 && bf.E.To() == r.Block() && reach(e.To(), nil, nil)[bf.E.From] && !inCycle(bf.E.From) {
+						tolerant = r
+					}
+				}
+			}
+		}
+		curEnv = nil
+	}
 	c.check(tolerant != nil, fn, "ii:torn-tail-tolerated", c.FnPos(rd),
 		"an unparsable final line can be tolerated (events, nil)",
 		"no path returns success after the final line failed to parse: a tail torn by a killed writer makes every command fail")
